@@ -644,7 +644,7 @@ func hasTag(tags []string, t string) bool {
 	return false
 }
 
-var preambleFuncs = map[string]bool{"fieldref": true, "boxref": true, "slen": true, "sat": true, "scat": true, "ssub": true}
+var preambleFuncs = map[string]bool{"fmt_d": true, "fmt_du": true, "fmt_03d": true, "fieldref": true, "boxref": true, "slen": true, "sat": true, "scat": true, "ssub": true}
 
 // frameCheck: everything the body changed that a caller could observe must be listed in `modifies`.
 // Heap arrays are compared on references that existed at entry (r >= 0, or allocated before entry);
